@@ -255,9 +255,10 @@ func c01Run(r *core.Run) {
 	// Options.Now unset (the library then reads the clock itself; windows are weeks wide, the hour does not matter)
 	nowWorld := r.Index%3 == 2
 	if nowWorld {
-		cfg.Epoch = time.Now().UTC().Truncate(time.Hour)
+		cfg.Epoch = wallNow
 		cfg.NetLat = -1 // inside a fake-clock bubble "now" would be another day
 		r.Probe("world_at_wall_clock_now")
+		r.WallClockWorld = true
 	}
 	w := world.NewWorld(t, cfg)
 	r.Eventf("world %s", tern(nowWorld, "(at wall-clock now)", w.Describe()))
